@@ -10,7 +10,10 @@
 (*   digits    "N<decimal>"      (digit strings; identity = the number)    *)
 (*   words     "T" "F" "INF" "NAN"  (TRUE FALSE INF NAN, any case)         *)
 (*   lexemes   "ex" "ex2" (exponent suffixes e+20 / e-07: the two signs    *)
-(*             python's repr() prints), "DT" (a 25 char CIM datetime)      *)
+(*             python's repr() prints); 25 char CIM datetimes (DSP0004     *)
+(*             5.2.4), one lexeme per {timestamp, interval} x {all fields  *)
+(*             digits, reduced precision = '*' in the least significant    *)
+(*             fields}: "DT" "DI" (full) "DTs" "DIs" (with asterisks)      *)
 (*   punctuation "sl" / "col" : "dot" . "eq" = "com" , "dq" double quote   *)
 (*             "sq" single quote "bs" backslash "lf" newline "sp" space    *)
 (*             "mi" - "lb" [ "rb" ] "at" @ "ot" (any other character)      *)
@@ -42,8 +45,15 @@ DigitToks == {"N0", "N1", "N5", "N127", "N128", "N255", "N32767", "N32768",
               "N18446744073709551615"}
 OctalOk == {"N1", "N5", "N127", "N255", "N32767", "N65535"} \* digits 1-7 only
 WordToks == {"T", "F", "INF", "NAN"}
+DtFull == {"DT", "DI"}        \* timestamp / interval, every field digits
+DtStar == {"DTs", "DIs"}      \* reduced precision: least significant fields
+                              \*   (or digits of the microseconds) are '*'
+DtToks == DtFull \cup DtStar
 WordSyms == Letters \cup DigitToks \cup WordToks          \* \w
-HostSyms == WordSyms \cup {"dot", "col", "at", "lb", "rb"} \* [\w.:@\[\]]
+(* authority: [\w.:@\[\]] and the hyphen of DNS host names (RFC 1123);   *)
+(* V.hosthyphen = "reject": the authority pattern has no '-'               *)
+HostSyms(V) == WordSyms \cup {"dot", "col", "at", "lb", "rb"}
+               \cup (IF V.hosthyphen = "ok" THEN {"mi"} ELSE {})
 SchemeSyms == WordSyms \cup {"mi"}                        \* [\w\-]
 Lower(c) == CASE c = "A" -> "a" [] c = "B" -> "b" [] c = "H" -> "h"
               [] OTHER -> c
@@ -63,6 +73,13 @@ VFixed == [realprint |-> "float",   \* "repr": Real32/Real64 print debug repr
                                     \*   a host that is an IP literal '[..]'
            expsign |-> "both",      \* "minus": REAL_VALUE exponent 'E-?'
                                     \*   (the '+' repr() prints is rejected)
+           hosthyphen |-> "ok",     \* "reject": '-' is not in the authority
+                                    \*   pattern: host 'my-host' is printed
+                                    \*   but not accepted
+           dtpre |-> "none",        \* "full": a double quoted value is only
+                                    \*   tried as a datetime if it passes an
+                                    \*   all-digits pre-check; reduced
+                                    \*   precision datetimes stay strings
            cache |-> "none"]        \* "refs": reference key values parsed
                                     \*   through a cache keyed by their text
                                     \*   (equal text -> ONE shared object);
@@ -83,6 +100,8 @@ VKbStar == [VFixed EXCEPT !.kbval = "star"]
 VCanonVal == [VFixed EXCEPT !.canonval = "lowered"]
 VHostLit == [VFixed EXCEPT !.hostcase = "dnsonly"]
 VExpSign == [VFixed EXCEPT !.expsign = "minus"]
+VDtPre == [VFixed EXCEPT !.dtpre = "full"]
+VHostHyphen == [VFixed EXCEPT !.hosthyphen = "reject"]
 VCacheRefs == [VFixed EXCEPT !.cache = "refs"]
 VCacheAll == [VFixed EXCEPT !.cache = "all"]
 (* variant chosen by environment (the harness probes the tree)             *)
@@ -95,6 +114,8 @@ VEnv == [VFixed EXCEPT
            !.dt = IF Env("C07_DTPREFIX") THEN "prefix" ELSE @,
            !.hostcase = IF Env("C07_HOSTLIT") THEN "dnsonly" ELSE @,
            !.expsign = IF Env("C07_EXPMINUS") THEN "minus" ELSE @,
+           !.dtpre = IF Env("C07_DTFULLONLY") THEN "full" ELSE @,
+           !.hosthyphen = IF Env("C07_HOSTNOHYPHEN") THEN "reject" ELSE @,
            !.cache = IF Env("C07_CACHEALL") THEN "all"
                      ELSE IF Env("C07_CACHEREFS") THEN "refs" ELSE @]
 
@@ -207,16 +228,16 @@ WellFormedNs(q) ==              \* words separated by single slashes
   /\ \A i \in 1..(Len(q) - 1) : ~(q[i] = "sl" /\ q[i + 1] = "sl")
 
 (* WBEM_URI_*PATH_REGEXP up to the class name:  optional scheme  [\w-]+ ':' *)
-(* optional authority '//' [\w.:@[]]* ; a '/' (optional only at the very  *)
+(* optional authority '//' [\w.:@[]-]* ; a '/' (optional only at the very  *)
 (* start) ; optional namespace \w+ ('/' \w+)... ; a ':' (optional only at *)
 (* the very start) ; class \w+ .  Each choice is forced by the next symbol *)
 (* (see notes), so the backtracking regexp is a deterministic function.    *)
-ParseHead(t) ==
+ParseHead(V, t) ==
   LET e1 == RunEnd(t, 1, SchemeSyms)
       scheme == e1 >= 1 /\ At(t, e1 + 1) = "col" /\ At(t, e1 + 2) = "sl"
       i0 == IF scheme THEN e1 + 2 ELSE 1
       auth == At(t, i0) = "sl" /\ At(t, i0 + 1) = "sl"
-      he == RunEnd(t, i0 + 2, HostSyms)
+      he == RunEnd(t, i0 + 2, HostSyms(V))
       hostq == SubSeq(t, i0 + 2, he)
       authok == auth => At(t, he + 1) = "sl"
       i1 == IF auth THEN he + 2 ELSE IF At(t, i0) = "sl" THEN i0 + 1 ELSE i0
@@ -277,8 +298,12 @@ Unesc(q) == IF q = <<>> THEN <<>>
                  THEN <<q[2]>> \o Unesc(SubSeq(q, 3, Len(q)))
             ELSE <<q[1]>> \o Unesc(Tail(q))
 
-IsDT(V, u) == IF V.dt = "exact" THEN u = <<"DT">>
-              ELSE u # <<>> /\ u[1] = "DT"
+IsDT(V, u) == IF V.dt = "exact" THEN Len(u) = 1 /\ u[1] \in DtToks
+              ELSE u # <<>> /\ u[1] \in DtToks
+(* pre-check of a double quoted value before CIMDateTime() is tried        *)
+(* ('^..$' pattern: one trailing newline passes)                           *)
+DtPre(V, u) == V.dtpre = "none" \/
+               (Len(StripLf(u)) = 1 /\ StripLf(u)[1] \in DtFull)
 
 (* DSP0004 integerValue / realValue over digit tokens                      *)
 Digits(x) == x # <<>> /\ \A i \in DOMAIN x : x[i] \in DigitToks
@@ -319,7 +344,8 @@ CimVal(V, it) ==
            r == ParseInst(V, u)
        IN IF r.ok THEN OkV(Val("reference", "", <<>>, <<r.p>>))
           ELSE IF r.err # "ValueError" THEN ErrV(r.err)   \* not caught
-          ELSE IF IsDT(V, u) THEN OkV(Val("datetime", "", <<u[1]>>, <<>>))
+          ELSE IF IsDT(V, u) /\ DtPre(V, u)
+               THEN OkV(Val("datetime", "", <<u[1]>>, <<>>))
           ELSE OkV(Val("string", "", u, <<>>))
   ELSE IF it.q = "sq"
   THEN LET u == Unesc(it.body)
@@ -346,7 +372,7 @@ Dedupe(kb) ==
 
 ParseInst(V, text) ==
   LET t == StripLf(text)
-      h == ParseHead(t)
+      h == ParseHead(V, t)
   IN IF ~h.ok \/ At(t, h.next) # "dot" \/ h.next >= Len(t)
      THEN Fail("ValueError")
      ELSE LET kbt == SubSeq(t, h.next + 1, Len(t))
@@ -367,7 +393,7 @@ ParseInst(V, text) ==
 
 ParseClass(V, text) ==
   LET t == StripLf(text)
-      h == ParseHead(t)
+      h == ParseHead(V, t)
   IN IF h.ok /\ h.next = Len(t) + 1
      THEN Res(TRUE, "", Path("class", h.hashost, h.host, h.hasns, h.ns,
                              h.cls, <<>>))
@@ -379,7 +405,7 @@ ParseU(V, kind, text) == IF kind = "class" THEN ParseClass(V, text)
 (* ------------------------------ requirement ---------------------------- *)
 (* the three documented losses of untyped URIs (Appendix A): numeric width,*)
 (* strings that read as a datetime, strings that read as an instance path  *)
-ReadsAsDT(s) == s = <<"DT">>
+ReadsAsDT(s) == Len(s) = 1 /\ s[1] \in DtToks
 ReadsAsUri(s) == ParseInst(VPerm, s).ok
 Exempt(s) == ReadsAsDT(s) \/ ReadsAsUri(s)
 
